@@ -112,7 +112,7 @@ inductive Stmt where
   | save (k : String) (slot : String)                   -- `slot = kwargs[k]`
   | restore (k : String) (slot : String)                -- `kwargs[k] = slot`
   | call (fn : String) (args : List Arg) (named : List (String × Arg)) (targets : List Target)
-         (viaFilter : Bool) (passKwargs : Bool)         -- `targets = [util.filter_kwargs(]fn[,] args, named [, **kwargs])`
+         (viaFilter : Bool) (passKwargs : Bool)         -- `targets = [util.filter_kwargs(]fn[,] args, named [, **kwargs])`; no targets: result discarded
   | ret                                                 -- `return scores`
   deriving DecidableEq, Repr, Inhabited
 
@@ -351,6 +351,7 @@ def deadForces (sigs : Sigs) : Program → List (String × KV)
 /-- does unpacking a result into `k` targets agree with the syntactic return shapes? a tuple display must have
     exactly `k ≥ 2` elements; any other expression is not judged -/
 def shapeOk (k : Nat) (rets : List (Option Nat)) : Bool :=
+  k == 0 ||        -- the result is discarded (`validate(…)` as a statement)
   rets.all fun
     | some n => decide (2 ≤ k ∧ n = k)
     | Option.none => true
